@@ -7,7 +7,15 @@ import (
 )
 
 // ErrInjected is the non-EOF reader failure the simulator injects.
-var ErrInjected = errors.New("verif: injected reader failure")
+var ErrInjected error = &injectedError{}
+
+// injectedError describes itself the way a connection past its read deadline does: temporary, a timeout — and it
+// keeps coming back on every further Read. A decoder that retries "temporary" errors without a bound never returns.
+type injectedError struct{}
+
+func (*injectedError) Error() string   { return "verif: injected reader failure" }
+func (*injectedError) Temporary() bool { return true }
+func (*injectedError) Timeout() bool   { return true }
 
 // Plan is a delivery schedule for a simulated stream: two tape values decide
 // it completely (kind + the seed of a private fragment-size generator), so a
